@@ -422,3 +422,11 @@ func (w *World) ReplayOnBlocks(trace []TraceEntry, dumps map[int]map[string]stri
 	}
 	return ""
 }
+
+// faultText strips the position prefix ("at instruction N (OP): ") from a VM fault message.
+func faultText(f string) string {
+	if i := strings.Index(f, "): "); i >= 0 && strings.HasPrefix(f, "at instruction") {
+		return f[i+3:]
+	}
+	return f
+}
